@@ -4,6 +4,7 @@ import (
 	"fmt"
 	"go/ast"
 	"go/constant"
+	"go/token"
 	"go/types"
 	"sort"
 	"strings"
@@ -41,7 +42,45 @@ func init() {
 			c.und("applied-bit", "MigrationRunner.runMigration", "", "anchor not found")
 		} else {
 			c.saw(qname(rm))
-			mg := findSite(rm, "Migrate")
+			// the Migrate call, in runMigration or in a helper of it (`executeMigration`: refactoring C18-R9)
+			var mgd *deepSite
+			for _, ds := range p.deepSites(rm, func(x Site) bool {
+				return (x.Method != nil && x.Method.Name() == "Migrate") || (x.Callee != nil && x.Callee.Name() == "Migrate")
+			}, 2) {
+				ds := ds
+				mgd = &ds
+			}
+			var mgCall *ssa.Call
+			if mgd != nil {
+				mgCall, _ = mgd.Site.Instr.(*ssa.Call)
+			}
+			fromMigrate := func(v ssa.Value, idx int) bool {
+				return mgCall != nil && p.flowsFromCallResult(v, mgCall, idx, 0)
+			}
+			// nilFact: the instruction is reached only under `v == nil` (want=true) / `v != nil` (want=false) for some v that is
+			// Migrate's result #idx (possibly handed through helper results and parameters)
+			nilFact := func(in ssa.Instruction, idx int, wantNil bool) bool {
+				for _, fct := range factsAt(in) {
+					b, ok := fct.Cond.(*ssa.BinOp)
+					if !ok || (b.Op != token.EQL && b.Op != token.NEQ) {
+						continue
+					}
+					var v ssa.Value
+					switch {
+					case isNilConst(b.X):
+						v = b.Y
+					case isNilConst(b.Y):
+						v = b.X
+					default:
+						continue
+					}
+					isNil := (b.Op == token.EQL) == fct.Pos
+					if isNil == wantNil && fromMigrate(v, idx) {
+						return true
+					}
+				}
+				return false
+			}
 			// all calls of SchemaVersion.Set on CurrentVersion anywhere
 			n := 0
 			for _, fn := range p.sortedFuncs() {
@@ -58,7 +97,7 @@ func init() {
 					n++
 					// in runMigration itself, or in a helper of it (conditions are then taken along the call chain)
 					var dsite *deepSite
-					if mg != nil {
+					if mgd != nil {
 						for _, ds := range p.deepSites(rm, func(x Site) bool { return x.Instr == s.Instr }, 2) {
 							ds := ds
 							dsite = &ds
@@ -71,7 +110,49 @@ func init() {
 					d := p.mustHoldDeep(*dsite)
 					ok1, m1 := everyDisjunctHas(d, []string{"^!", "Migrate(", "#0 != nil"}, []string{"Migrate(", "#0 == nil"})
 					ok2, m2 := everyDisjunctHas(d, []string{"^!", "Migrate(", "#1 != nil"}, []string{"errors.Is(", "Migrate(", "ctx.Err()"})
-					c.check(ok1 && dominatesInstr(mg.Instr, dsite.outer()), "applied-bit", "runMigration: bit set only when Migrate returned a nil state", p.Pos(s.Pos()), "intermediateState == nil branch", "the applied bit can be set although Migrate returned a non-nil (even if empty) resume state: "+m1)
+					after := mgd.outer() == dsite.outer() || dominatesInstr(mgd.outer(), dsite.outer())
+					if !ok1 {
+						// Migrate's state result may reach the test through a helper's results and another helper's parameter
+						ok1 = nilFact(s.Instr, 0, true)
+					}
+					if !ok2 && mgd.Site.Instr.Parent() != rm && len(mgd.Chain) == 1 {
+						// Migrate runs in a helper: (i) every return of the helper that reports no error holds the condition on
+						// Migrate's error, (ii) runMigration reaches the bit only after that helper returned a nil error
+						g0 := mgd.Site.Instr.Parent()
+						okI, k := true, 0
+						for _, ret := range returnsOf(g0) {
+							if len(ret.Results) == 0 || !isNilConst(ret.Results[len(ret.Results)-1]) {
+								continue
+							}
+							k++
+							if o, _ := everyDisjunctHas(p.mustHoldAt(ret.Ret), []string{"^!", "Migrate(", "#1 != nil"}, []string{"errors.Is(", "Migrate(", "ctx.Err()"}); !o {
+								okI = false
+							}
+						}
+						okII := false
+						if hc, isCall := mgd.Chain[0].Instr.(*ssa.Call); isCall {
+							for _, fct := range factsAt(dsite.outer()) {
+								b, isB := fct.Cond.(*ssa.BinOp)
+								if !isB {
+									continue
+								}
+								var v ssa.Value
+								switch {
+								case isNilConst(b.X):
+									v = b.Y
+								case isNilConst(b.Y):
+									v = b.X
+								default:
+									continue
+								}
+								if ex, isEx := v.(*ssa.Extract); isEx && ex.Tuple == ssa.Value(hc) && ex.Index == hc.Call.Signature().Results().Len()-1 && (b.Op == token.EQL) == fct.Pos {
+									okII = true
+								}
+							}
+						}
+						ok2 = okI && k > 0 && okII
+					}
+					c.check(ok1 && after, "applied-bit", "runMigration: bit set only when Migrate returned a nil state", p.Pos(s.Pos()), "intermediateState == nil branch", "the applied bit can be set although Migrate returned a non-nil (even if empty) resume state: "+m1)
 					c.check(ok2, "applied-bit", "runMigration: Migrate's error is handled before the bit", p.Pos(s.Pos()), "error is nil or the context's", "the applied bit can be set after Migrate failed: "+m2)
 				}
 			}
@@ -102,9 +183,12 @@ func init() {
 				dominatesInstr(wm.Instr, wr.Instr) && dominatesInstr(di.Instr, wr.Instr)
 			c.check(okb, "applied-bit", "runMigration: metadata + state deletion in one batch", p.Pos(fnPos(rm)), "same batch value, written once after both", "the applied bit and the deletion of the resume state are no longer committed in one batch")
 			// intermediate state is persisted before returning when non-nil
-			ws := findSite(rm, "WriteIntermediateState")
+			ws := first(nameMatcher("WriteIntermediateState"))
 			if ws != nil {
 				ok, miss := everyDisjunctHas(p.mustHoldAt(ws.Instr), []string{"Migrate(", "#0 != nil"})
+				if !ok {
+					ok = nilFact(ws.Instr, 0, false)
+				}
 				c.check(ok, "applied-bit", "runMigration: resume state persisted when non-nil", p.Pos(ws.Pos()), "written on the non-nil branch", "resume state persistence is not on the non-nil branch: "+miss)
 			} else {
 				c.viol("applied-bit", "runMigration: resume state persisted", p.Pos(fnPos(rm)), "the resume state is never persisted")
